@@ -326,3 +326,42 @@ PROPS['C20'] = dict(
                "is represented by its result (its own properties are C11/C12).",
     assumptions=["default capacities are read from the classes at run time", "ParseSource is represented by the collection it returns"],
 )
+
+def heap_key(l):
+    ops = l.get('ops', [])
+    kinds = l.get('kinds', [])
+    def cls(o):
+        x = o.get('x', o.get('a'))
+        return (o.get('op'), o.get('kind') or (kinds[x] if isinstance(x, int) and x < len(kinds) else None), o.get('how'))
+    return (l.get('label', '').split('/n')[0], tuple(sorted(set(cls(o) for o in ops), key=str))[:12], size_class(len(ops)))
+
+PROPS['C18'] = dict(
+    id='C18', modules=['CollectionModel.Props.C18'], key=heap_key,
+    nontrivial=lambda l: any(o.get('op') in ('goWrite', 'goPairWrite', 'goMapSet', 'goMapDelete', 'setValue', 'setValues', 'appendValues',
+                                             'insertValues', 'addValues', 'removeValues', 'reverse', 'sort', 'putValue', 'dropKey') for o in l.get('ops', [])),
+    rule="cases = scripts over a table of handles (client Go arrays / association arrays / Go maps, the seven collection kinds, returned "
+         "sequences); after EVERY step the contents seen through EVERY handle are recorded. Systematic part: for every kind, sizes 0..4: "
+         "construct from a Go array (or association array, or Go map), write the argument at every position (element assignment, "
+         "association object SetValue, slot replacement, map set/delete), then every mutator of the collection (bulk ones with the "
+         "collection itself as operand), then the argument again; for every getter and class function (AsArray, GetValues, GetKeys, "
+         "GetValues(keys), RemoveValues(range), RemoveValues(keys), Concatenate incl. empty operands, And/Or/Sans/Xor incl. empty "
+         "operands, Merge incl. empty, Extract, MakeFromSequence into every kind): mutate the result at every position / with every "
+         "mutator, then the collection with every mutator; every bulk operation (AppendValues, InsertValues, SetValues, AddValues, "
+         "RemoveValues) with the receiver itself, a full view, a partial view and a detached copy as operand, with a twin script "
+         "passing a separate copy. Random part: 300 (quick) / 4000 (thorough) random scripts of 6..20 steps mixing everything with "
+         "shared handles. distinct = distinct (script family, set of (operation, kind) used, length class)",
+    exhaustive_subspaces="the systematic part enumerates every (kind, entry point, size 0..4, position) combination named in the property's quantifier",
+    level_text="Lean 4 theorems about a storage model (heap of backing arrays / Go maps + handle table; every API entry point written as "
+               "the allocations, copies, in-place writes and pointer updates of its Go body): C18_step_wf (handles own pairwise distinct "
+               "existing cells, invariant of every call), C18_step_isolation (a call changes only what its receiver shows and creates "
+               "its result; every other handle shows the same contents), C18_history_isolation (the same over every script of any "
+               "length, any number of objects, any sizes), C18_constructor_fresh / C18_result_fresh / C18_range_results_fresh (every "
+               "constructor and every getter/class function returns storage that did not exist before the call), C18_self_operand "
+               "(AppendValues/InsertValues/SetValues/AddValues/RemoveValues with the receiver as operand = the same call with a "
+               "separate copy). Tie: every script is executed on the real objects and on the compiled model; all handles are compared "
+               "after every step; the isolation clause and the twin-script clause are judged on the real observations.",
+    level_note="The storage programs are hand-written from the Go bodies at the granularity alloc / snapshot / in-place write / "
+               "retarget; what each call computes is reused from the value-level models of C01/C02/C03/C14. Integer elements only. "
+               "Association objects are modelled by value (the catalog's copies made by fix 1dc6409).",
+    assumptions=["element objects that are themselves mutable reference types (nested collections as elements) are shared by design of Go interfaces and not claimed"],
+)
